@@ -61,6 +61,9 @@ def _attempt(rng, ctor, driver, levels, perm, fault, item_idx, union_ok=False):
         ops[0]["staged"] = staged
     if ctor == "dicts" and union_ok and rng.random() < 0.25:
         ops[0]["union"] = True
+    elif ctor == "dicts" and rng.random() < 0.15:
+        # a project dict that stores the SAME fragment graph objects of the first level under other names
+        ops[0]["alias"] = True
     if driver == "iter" and levels >= 2 and rng.random() < 0.15:
         # the first levels stepped by hand, the remaining ones taken from resolve_iter() (the generator yields the
         # remaining levels correctly; only exhausting it is left out: it would run past the last level)
@@ -409,6 +412,7 @@ class _Run:
             st["last"] = None
             st["passed_lib"] = None
             st["staged"] = False
+            st["alias"] = False
             ctor = op["ctor"]
             if ctor == "string":
                 st["res"] = MoleculeResolver.from_string(".".join([item["base"]] + list(blocks)), last_all_atom=laa, legacy=legacy)
@@ -439,7 +443,16 @@ class _Run:
                 if lib is None:
                     lib = MoleculeResolver.read_fragment_strings(list(blocks), last_all_atom=laa)
                     st["passed_lib"] = (lib, _lib_snapshot(lib))
-                st["res"] = MoleculeResolver.from_fragment_dicts(item["base"], lib, last_all_atom=laa, legacy=legacy)
+                base = item["base"]
+                first = lib[0]
+                if op.get("alias") and not any(name + "q" in first for name in first):
+                    import re
+                    for name in first:
+                        base = re.sub(r"\[#" + re.escape(name) + r"(?=[\];])", "[#" + name + "q", base)
+                    lib = [{name + "q": graph for name, graph in first.items()}] + list(lib[1:])
+                    st["alias"] = True
+                    self.bump("alias_constructions")
+                st["res"] = MoleculeResolver.from_fragment_dicts(base, lib, last_all_atom=laa, legacy=legacy)
             elif ctor == "own":
                 lib = st["own_lib"]
                 st["res"] = MoleculeResolver.from_fragment_dicts(item["base"], lib, last_all_atom=laa, legacy=legacy)
@@ -462,12 +475,15 @@ class _Run:
             event["level"] = level
             if st.get("staged"):
                 event["staged"] = True
+            if st.get("alias"):
+                event["alias"] = True
             event["item"] = op.get("item", client.get("item"))
             st["last"] = (coarse, fine)
             all_atom = item["last_all_atom"] and level == item["n_levels"]
             found = []
             shared_here = item.get("shared_atoms", False) and "!" in item["blocks"][min(level, len(item["blocks"])) - 1]
-            found += monitors.numbering(coarse, fine, all_atom, shared_here)
+            # (a fragment stored under another name in the caller's dict keeps the name it was created with)
+            found += monitors.numbering(coarse, fine, all_atom, shared_here, names_agree=not (st.get("alias") and level == 1))
             found += monitors.mapping(coarse, fine)
             if st["prev"] is not None and kind != "resolve_all":
                 found += monitors.chaining(st["prev"], coarse)
@@ -893,6 +909,8 @@ def execute(scenario):
                     continue
                 want = ref["levels"][level - 1] if 1 <= level <= len(ref["levels"]) else None
                 got = ev["dig"]
+                if ev.get("alias"):
+                    continue        # other residue names by construction: judged by the monitors and the library oracles
                 if ev.get("staged") and want is not None:
                     # the coarse graph of a staged resolver is the caller's own graph (it carries what the first
                     # resolver left on it): the molecule is what has to be identical
@@ -952,7 +970,7 @@ def execute(scenario):
         ctor = None
         for op in client["script"]:
             if op["op"] == "construct":
-                ctor = op["ctor"] + ("+perm" if op.get("perm") else "") + ("+staged" if op.get("staged") else "") + ("+union" if op.get("union") else "")
+                ctor = op["ctor"] + ("+perm" if op.get("perm") else "") + ("+staged" if op.get("staged") else "") + ("+union" if op.get("union") else "") + ("+alias" if op.get("alias") else "")
             elif op["op"] in ("resolve", "iter_next", "resolve_all") and ctor:
                 key = "path:%s/%s" % (ctor, {"resolve": "manual", "iter_next": "iter-after-manual" if op.get("after_manual") else "iter", "resolve_all": "all"}[op["op"]])
                 ctor_driver[key] = 1
